@@ -1348,6 +1348,18 @@ def big_families(budget):
     fams.append(("isolated3000", 3000, [], None))
     fams.append(("components1000", 2000, [(2 * i, 2 * i + 1) for i in range(1000)], None))
     fams.append(("K40", 40, G.sk_complete(40), None))
+    # further shapes: a hub with thousands of leaves, a deep binary tree, a square grid, a complete bipartite graph,
+    # hundreds of identical rings
+    k = 2000 if quick else 5000
+    fams.append((f"star{k}", k, G.sk_star(k), None))
+    k = 2047 if quick else 8191
+    fams.append((f"bintree{k}", k, [((i - 1) // 2, i) for i in range(1, k)], None))
+    w = 30 if quick else 60
+    fams.append((f"grid{w}", w * w, [(r * w + c, r * w + c + 1) for r in range(w) for c in range(w - 1)] +
+                 [(r * w + c, (r + 1) * w + c) for r in range(w - 1) for c in range(w)], None))
+    fams.append(("K30_30", 60, G.sk_bipartite(30, 30), None))
+    k = 300 if quick else 1200
+    fams.append((f"rings{k}", 6 * k, [(6 * j + i, 6 * j + (i + 1) % 6) for j in range(k) for i in range(6)], None))
     return fams
 
 
@@ -1379,7 +1391,8 @@ def work_C15(run, rng, budget):
         run.corr(*R.op_refine(p0), "observable")
     for m in molecules(run, rng, 30 * budget):
         queue_pipeline_ops(run, mol_graph(m))
-    return "paths, cycles, ladders, combs, peptide backbones up to thousands of atoms, 5000 isolated atoms, 2000 components, K40 " \
+    return "paths, cycles, ladders, combs, peptide backbones up to thousands of atoms, 5000 isolated atoms, 2000 components, K40, " \
+           "stars with thousands of leaves, deep binary trees, square grids, K30,30, hundreds of identical rings " \
            "through the real pipeline and parser; model/real round counts compared on the same families at <= 61 atoms; every " \
            "family/size is a distinct non-trivial case"
 
